@@ -152,6 +152,17 @@ CLAIMS = {
         "and the exactness of gate application (C02) are not mechanised.",
         COMMON_NOTE + "Axioms: standard-library real-number axioms for the theorems over R.",
         "DESIGN.md §3 C03"),
+    "C06": (
+        "Coq proof (mixed-radix index arithmetic: digit round trip, solver state index = operator embedding index, for every chain length) + exact per-basis-string correspondence for all four solver settings + dense master-equation search",
+        "Machine-checked proof, for binary chains of any length, that the position at which the dense solvers hold the amplitude of a "
+        "basis string (to_vec followed by their re-ordering) equals the position at which operators are embedded, and that Z embedded "
+        "on site i reads digit i of the string. Exact tie: for every basis string of length 2..4 the to_vec index, MCWF's start-vector "
+        "index and the signs of <Z_i> reported by TJM order 1/2, MCWF and Lindblad (t=0 and after evolution under a site-diagonal "
+        "Hamiltonian) vs the model. Search: the solvers on asymmetric initial states (basis strings, Neel, wall) with random "
+        "Hamiltonians and one-site noise against the dense master equation / unitary evolution. PARTIAL: RK45 meeting its "
+        "tolerance and the time-stepping error of TJM/MCWF are not mechanised (tolerances 2e-4 / 5e-3).",
+        COMMON_NOTE,
+        "DESIGN.md §3 C06"),
 }
 
 NOT_YET = "check not built yet in this round (planned in DESIGN.md §3); no claim is made"
